@@ -113,13 +113,13 @@ func plausibleBody(r *gen.RNG, n int) []byte {
 func hostileInputs(env run.Env, phase, idx int, emit0 func(kind string, in []byte)) {
 	r := rng(env, "hostile", phase, idx)
 	// A header that declares megabytes it does not deliver makes ReadPacket
-	// allocate the declared size (which C05 allows). Such inputs are kept to
-	// one in 64 — chosen by a hash of the input, so deterministically — to
-	// keep sixteen workers from thrashing memory; the "declared-huge" family
-	// covers them on purpose.
+	// allocate the declared size (which C05 allows). Such inputs come from
+	// the "declared-huge" family only, a handful per run, and the checks
+	// pass them through Ctx.HugeGate one at a time; elsewhere they are
+	// dropped, or sixteen workers would thrash memory.
 	emit := func(kind string, in []byte) {
 		if kind != "declared-huge" {
-			if h, err := ref.ParseHeader(in); err == nil && h.RemLen > 1<<22 && len(in) < h.Total() && run.HashBytes(7, in)%64 != 0 {
+			if h, err := ref.ParseHeader(in); err == nil && h.RemLen > 1<<22 && len(in) < h.Total() {
 				return
 			}
 		}
@@ -350,8 +350,11 @@ func listInputs(r *gen.RNG, emit func(string, []byte)) {
 	}
 	// headers declaring much more than follows (little or nothing behind them)
 	if r.Chance(1, 4) {
-		decls := []uint32{1 << 16, 1 << 20, 1 << 24}
-		if r.Chance(1, 8) {
+		decls := []uint32{1 << 16, 1 << 20}
+		if r.Chance(1, 16) {
+			decls = append(decls, 1<<24, 1<<26)
+		}
+		if r.Chance(1, 64) {
 			decls = append(decls, ref.MaxVBI)
 		}
 		for _, decl := range decls {
